@@ -239,21 +239,19 @@ def model_spec(draw, prof=None):
                 c['style'] = 'dense'
         if prof['out_scaling']:
             for v in c['outputs']:
-                if draw(st.integers(0, 2)) > 0:
-                    n = int(np.prod(v['shape']))
-                    sc = st.sampled_from([-100.0, -3.0, -0.5, 0.01, 0.5, 2.0, 7.0, 250.0])
-                    if draw(st.booleans()):
-                        v['ref'] = draw(sc)
-                    else:
-                        v['ref'] = draw(st.lists(sc, min_size=n, max_size=n))
-                    if draw(st.booleans()):
-                        r0 = draw(st.sampled_from([-5.0, -1.0, 0.25, 1.0, 3.0]))
-                        # ref != ref0 elementwise
-                        refs = v['ref'] if isinstance(v['ref'], list) else [v['ref']]
-                        if all(abs(r - r0) > 1e-3 for r in refs):
-                            v['ref0'] = r0
-                    if draw(st.booleans()):
-                        v['res_ref'] = draw(st.sampled_from([0.01, 0.5, 3.0, 100.0]))
+                n = int(np.prod(v['shape']))
+                sc = st.sampled_from([-100.0, -3.0, -0.5, 0.01, 0.5, 2.0, 7.0, 250.0])
+                # ref, ref0 and res_ref are drawn independently (res_ref alone is a configuration of its own: it
+                # scales residuals while outputs stay unscaled)
+                if chance(draw, 0.55):
+                    v['ref'] = draw(sc) if draw(st.booleans()) else draw(st.lists(sc, min_size=n, max_size=n))
+                if chance(draw, 0.3):
+                    r0 = draw(st.sampled_from([-5.0, -1.0, 0.25, 1.0, 3.0]))
+                    refs = v['ref'] if isinstance(v.get('ref'), list) else [v.get('ref', 1.0)]
+                    if all(abs(r - r0) > 1e-3 for r in refs):
+                        v['ref0'] = r0
+                if chance(draw, 0.4):
+                    v['res_ref'] = draw(st.sampled_from([0.01, 0.125, 0.5, 3.0, 40.0, 100.0]))
 
     # ---- solvers per group -------------------------------------------------------------------------
     gkeys = set()
